@@ -447,6 +447,44 @@ pub fn pair_sweeps(rep: &mut Report, roundtrip: bool) {
             one::<V5>(rep, &p, || format!("v5 PUBACK with one user property, name {} bytes, value {} bytes", a, b), roundtrip);
             let p = v3::Packet::Connect(v3::Connect { protocol: Protocol::V311, clean_session: true, keep_alive: 9, client_id: names[a].clone(), last_will: None, username: Some(values[b].clone()), password: Some(vec![b'p'; (a + b) % 14].into()) });
             one::<V3>(rep, &p, || format!("v3 CONNECT, client id {} bytes, user name {} bytes, password {} bytes", a, b, (a + b) % 14), roundtrip);
+            if (a + 2 * b) % 4 == 0 {
+                // further field pairs on a quarter of the grid each (different residues, so the union of the
+                // four covers every pair once per two pair kinds)
+                let p = v5::Packet::Auth(v5::Auth { reason_code: v5::AuthReasonCode::ContinueAuthentication, properties: v5::AuthProperties { auth_method: Some(names[a].clone()), auth_data: Some(vec![1u8; b].into()), reason_string: None, user_properties: vec![] } });
+                one::<V5>(rep, &p, || format!("v5 AUTH, method {} bytes, data {} bytes", a, b), roundtrip);
+                let p = v5::Packet::Disconnect(v5::Disconnect { reason_code: v5::DisconnectReasonCode::ServerMoved, properties: v5::DisconnectProperties { session_expiry_interval: None, reason_string: Some(names[a].clone()), user_properties: vec![], server_reference: Some(values[b].clone()) } });
+                one::<V5>(rep, &p, || format!("v5 DISCONNECT, reason string {} bytes, server reference {} bytes", a, b), roundtrip);
+            }
+            if (a + 2 * b) % 4 == 1 {
+                let p = v5::Packet::Connack(v5::Connack { session_present: false, reason_code: v5::ConnectReasonCode::Success, properties: v5::ConnackProperties { assigned_client_id: Some(names[a].clone()), response_info: Some(values[b].clone()), ..Default::default() } });
+                one::<V5>(rep, &p, || format!("v5 CONNACK, assigned client id {} bytes, response information {} bytes", a, b), roundtrip);
+                let p = v5::Packet::Connect(v5::Connect {
+                    protocol: Protocol::V500,
+                    clean_start: false,
+                    keep_alive: 1,
+                    properties: Default::default(),
+                    client_id: names[a % 24].clone(),
+                    last_will: Some(v5::LastWill { qos: mqtt_proto::QoS::Level2, retain: true, topic_name: TopicName::try_from("w".repeat(a + 1)).unwrap(), payload: vec![3u8; b].into(), properties: Default::default() }),
+                    username: None,
+                    password: None,
+                });
+                one::<V5>(rep, &p, || format!("v5 CONNECT, will topic {} bytes, will payload {} bytes", a + 1, b), roundtrip);
+            }
+            if (a + 2 * b) % 4 == 2 {
+                let f = |n: usize| mqtt_proto::TopicFilter::try_from("f".repeat(n + 1)).unwrap();
+                let p = v3::Packet::Subscribe(v3::Subscribe { pid, topics: vec![(f(a), mqtt_proto::QoS::Level0), (f(b), mqtt_proto::QoS::Level2)] });
+                one::<V3>(rep, &p, || format!("v3 SUBSCRIBE, filters of {} and {} bytes", a + 1, b + 1), roundtrip);
+                let p = v3::Packet::Connect(v3::Connect {
+                    protocol: Protocol::V310,
+                    clean_session: false,
+                    keep_alive: 1,
+                    client_id: names[b % 24].clone(),
+                    last_will: Some(v3::LastWill { qos: mqtt_proto::QoS::Level1, retain: false, topic_name: TopicName::try_from("w".repeat(a + 1)).unwrap(), message: vec![3u8; b].into() }),
+                    username: None,
+                    password: None,
+                });
+                one::<V3>(rep, &p, || format!("v3.1 CONNECT, will topic {} bytes, will message {} bytes", a + 1, b), roundtrip);
+            }
             if a > 0 && (a + b) % 3 == 0 {
                 let p = v5::Packet::Publish(v5::Publish { dup: false, retain: false, qos_pid: QosPid::Level0, topic_name: TopicName::try_from("t".repeat(a)).unwrap(), payload: vec![7u8; b].into(), properties: v5::PublishProperties { content_type: Some(values[b % 7].clone()), ..Default::default() } });
                 one::<V5>(rep, &p, || format!("v5 PUBLISH, topic {} bytes, payload {} bytes", a, b), roundtrip);
